@@ -74,6 +74,34 @@ fn type_name(f: &FrameMut) -> &'static str {
     }
 }
 
+fn inner_size(f: &FrameMut) -> usize {
+    match f {
+        Frame::Padding(x) => x.encoding_size(),
+        Frame::Ping(x) => x.encoding_size(),
+        Frame::Ack(x) => x.encoding_size(),
+        Frame::ResetStream(x) => x.encoding_size(),
+        Frame::StopSending(x) => x.encoding_size(),
+        Frame::Crypto(x) => x.encoding_size(),
+        Frame::NewToken(x) => x.encoding_size(),
+        Frame::Stream(x) => x.encoding_size(),
+        Frame::MaxData(x) => x.encoding_size(),
+        Frame::MaxStreamData(x) => x.encoding_size(),
+        Frame::MaxStreams(x) => x.encoding_size(),
+        Frame::DataBlocked(x) => x.encoding_size(),
+        Frame::StreamDataBlocked(x) => x.encoding_size(),
+        Frame::StreamsBlocked(x) => x.encoding_size(),
+        Frame::NewConnectionId(x) => x.encoding_size(),
+        Frame::RetireConnectionId(x) => x.encoding_size(),
+        Frame::PathChallenge(x) => x.encoding_size(),
+        Frame::PathResponse(x) => x.encoding_size(),
+        Frame::ConnectionClose(x) => x.encoding_size(),
+        Frame::HandshakeDone(x) => x.encoding_size(),
+        Frame::Datagram(x) => x.encoding_size(),
+        Frame::DcStatelessResetTokens(x) => x.encoding_size(),
+        Frame::MtuProbingComplete(x) => x.encoding_size(),
+    }
+}
+
 fn render(f: FrameMut) -> String {
     match f {
         Frame::Padding(p) => format!("PADDING len={}", p.length),
@@ -163,6 +191,12 @@ impl Component for FrameC {
                     Ok((frame, rest)) => {
                         let consumed = total - rest.len();
                         let size = frame.encoding_size();
+                        // the size the frame type itself announces (what the transmit path asks
+                        // before writing a frame; `Stream` overrides `encoding_size_for_encoder`)
+                        let inner = inner_size(&frame);
+                        if inner != size {
+                            return format!("ok MISMATCH {} encoding_size frame={} inner={}", type_name(&frame), size, inner);
+                        }
                         // a roomy buffer: a size/announcement mismatch is reported, not a panic
                         let mut out = vec![0xa5u8; size + 64];
                         let mut e = EncoderBuffer::new(&mut out);
